@@ -3,6 +3,7 @@ from pvrules.mir import is_call, peel, show, strip_generics, subterms
 from pvrules.rules import SELF_FIELD, count_range, elem_of
 from . import unordered as un
 from . import vec_common as vc
+from . import controls
 
 LEVEL = "other"
 EXPLANATION = ("Static MIR rules: every iteration over a hash container in the crate is enumerated and classified from what the loop / iterator chain "
@@ -330,6 +331,7 @@ def rule_R5(ctx, f):
 def run(ctx):
     f = ctx.facts("default")
     ctx.run_rule("R1", rule_R1, f)
+    ctx.run_rule("R1", lambda c: controls.control_unordered(c, "R1"))
     ctx.run_rule("R2", rule_R2, f)
     ctx.run_rule("R3", rule_R3, f)
     ctx.run_rule("R4", rule_R4, f)
